@@ -1,7 +1,10 @@
 """C08 - query answers follow the language and ignore chunking and parallelism.
 Mode A: TLC exhaustively checks specs/QuerySem.tla: ChunkIndependence of the chunk machine (every stream up to the
-        bound under every partition into chunks) and the Laws of the semantics over a tiny universe.
-Mode B: TLC evaluates (data set, query) pairs (seeded simulation of the query grammar + BFS over fixed data sets) and
+        bound under every partition into chunks, incl. "the chunk is the last one" = the first chunk already complete;
+        sum, count and last() over tied points) and the Laws of the semantics over a tiny universe (incl. what FILL puts
+        into every single cell and the tie rules refining the language's alternatives).
+Mode B: TLC evaluates (data set, query) pairs (seeded simulation of the query grammar + BFS over fixed data sets + the
+        shape families: complementary nulls x multi-field fill queries, tied points x selectors) and
         exports the expected answers; every data set is loaded into real single-node servers (one per server-side
         configuration) and every query is run under the configuration matrix
             {ascending, descending} x {not chunked, chunked=true&chunk_size=1|2} x {inner_chunk_size default,1,2,3}
@@ -16,8 +19,11 @@ import vserver
 
 PROP = "C08"
 NONE, EPOCH = -77, -1000
-DEVS_LAWS = ["count_includes_null", "desc_not_reversed", "limit_before_offset", "bucket_trunc"]
-DEVS_CHUNK = ["agg_reset_at_chunk", "fillprev_forgets_at_chunk", "limit_per_chunk"]
+NO_ANSWER = "no answer within 60 s and, asked again, within 30 s"
+MAX_TIMEOUTS = 6        # per server: after that many unanswered queries the remaining ones are not asked any more
+DEVS_LAWS = ["count_includes_null", "desc_not_reversed", "limit_before_offset", "bucket_trunc", "fill_skips_present_cells"]
+DEVS_CHUNK = ["agg_reset_at_chunk", "fillprev_forgets_at_chunk", "limit_per_chunk", "last_later_chunk_wins",
+              "fill_fastpath_skips_cells"]
 
 # the memtable must stay a memtable until the check flushes it (default: flushed 5 s after the last write)
 NO_AUTO_FLUSH = {"write-cold-duration": '"1h"', "force-snapShot-duration": '"1h"'}
@@ -32,44 +38,72 @@ SERVER_CONFS = {
 # TLC
 
 
+# several TLC processes run side by side: each JVM is capped (the default heap is a quarter of the RAM, and the machine's
+# OOM killer has taken TLC runs of this check when eight of them grew at once)
+if "-Xmx" not in os.environ.get("JAVA_TOOL_OPTIONS", ""):
+    os.environ["JAVA_TOOL_OPTIONS"] = (os.environ.get("JAVA_TOOL_OPTIONS", "") + " -Xmx3g").strip()
+
+
 def tlc(cfg, **kw):
     r = vlib.run_tlc("QuerySemMC", cfg, **kw)
     vlib.tlc_must_pass(r, cfg)
     return r
 
 
-def gen_cases(tier, seed):
+def gen_cases(tier, seed, defer=False):
     stats = {}
     quick = tier == "quick"
     c1 = "QuerySem.chunk.quick.cfg" if quick else "QuerySem.chunk.thorough.cfg"
     c2 = "QuerySem.laws.quick.cfg" if quick else "QuerySem.laws.thorough.cfg"
-    stride = 100 if quick else 4
-    with cf.ThreadPoolExecutor(4) as ex:
-        f1 = ex.submit(tlc, c1, workers=8, timeout=2400)
-        f2 = ex.submit(tlc, c2, workers=8, timeout=2400)
-        nsim = 14 if quick else 60
-        f3 = ex.submit(tlc, "QuerySem.sim.cfg", simulate=nsim, depth=16, seed=seed, timeout=2400)
-        # a seeded sample of the BFS universe: every stride-th query, starting at seed % stride
-        os.makedirs(vlib.WORK, exist_ok=True)
-        txt = open(os.path.join(vlib.SPECS, "cfg", "QuerySem.bfs.export.cfg")).read()
-        txt = txt.replace("BfsStride = 1", f"BfsStride = {stride}").replace("BfsOff = 0", f"BfsOff = {seed % stride}")
-        txt = txt.replace("QueryChoices <- BfsQueries", "QueryChoices <- BfsSample")
-        bcfg = os.path.join(vlib.WORK, f"QuerySem.bfs.sample.{os.getpid()}.cfg")
-        open(bcfg, "w").write(txt)
-        f4 = ex.submit(tlc, bcfg, workers=4, timeout=2400)
-        r1, r2, r3, r4 = f1.result(), f2.result(), f3.result(), f4.result()
-    os.remove(bcfg)
-    stats["chunk"] = {k: r1[k] for k in ("generated", "distinct", "depth", "wall_s")} | {"cfg": c1}
-    stats["laws"] = {k: r2[k] for k in ("generated", "distinct", "depth", "wall_s")} | {"cfg": c2}
-    stats["sim"] = {"traces": len(r3["traces"]), "num": nsim, "wall_s": r3["wall_s"]}
-    stats["bfs"] = {"traces": len(r4["traces"]), "wall_s": r4["wall_s"]}
+    stride = 100 if quick else 10
+    sstride = 100 if quick else 50
+
+    def sample_cfg(name, st, choices, sample):
+        """a seeded sample of an enumerated universe: every st-th query, starting at seed % st"""
+        txt = open(os.path.join(vlib.SPECS, "cfg", f"QuerySem.{name}.export.cfg")).read()
+        txt = txt.replace("BfsStride = 1", f"BfsStride = {st}").replace("BfsOff = 0", f"BfsOff = {seed % st}")
+        txt = txt.replace(f"QueryChoices <- {choices}", f"QueryChoices <- {sample}")
+        path = os.path.join(vlib.WORK, f"QuerySem.{name}.sample.{os.getpid()}.cfg")
+        open(path, "w").write(txt)
+        return path
+
+    os.makedirs(vlib.WORK, exist_ok=True)
+    bcfg = sample_cfg("bfs", stride, "BfsQueries", "BfsSample")
+    scfg = sample_cfg("shape", sstride, "ShapeQueries", "ShapeSample")
+    # Mode A (chunk machine, laws; thorough: also the second laws universe, the negative times and the longer-window
+    # chunk machine) and the generators run side by side; the replay starts as soon as the generators are done and
+    # Mode A is joined by finish() before the verdict (it must pass, else vlib.Infra)
+    ex = cf.ThreadPoolExecutor(8)
+    nsim = 14 if quick else 24
+    mode_a = {"chunk": (c1, ex.submit(tlc, c1, workers=6 if quick else 4, timeout=2400)),
+              "laws": (c2, ex.submit(tlc, c2, workers=6 if quick else 3, timeout=2400))}
+    f3 = ex.submit(tlc, "QuerySem.sim.cfg", simulate=nsim, depth=16, seed=seed, timeout=2400)
+    f4 = ex.submit(tlc, bcfg, workers=2, timeout=2400)
+    f7 = ex.submit(tlc, scfg, workers=2, timeout=2400)
     if not quick:
-        with cf.ThreadPoolExecutor(2) as ex:
-            f5 = ex.submit(tlc, "QuerySem.laws.neg.cfg", workers=8, timeout=2400)
-            f6 = ex.submit(tlc, "QuerySem.chunk.thorough5.cfg", workers=8, timeout=2400)
-            r5, r6 = f5.result(), f6.result()
-        stats["laws_neg"] = {k: r5[k] for k in ("generated", "distinct", "wall_s")}
-        stats["chunk5"] = {k: r6[k] for k in ("generated", "distinct", "depth", "wall_s")} | {"cfg": "QuerySem.chunk.thorough5.cfg"}
+        mode_a["laws_neg"] = ("QuerySem.laws.neg.cfg", ex.submit(tlc, "QuerySem.laws.neg.cfg", workers=2, timeout=2400))
+        mode_a["chunk5"] = ("QuerySem.chunk.thorough5.cfg", ex.submit(tlc, "QuerySem.chunk.thorough5.cfg", workers=5, timeout=2400))
+        mode_a["laws2"] = ("QuerySem.laws.thorough2.cfg", ex.submit(tlc, "QuerySem.laws.thorough2.cfg", workers=3, timeout=2400))
+    try:
+        r3, r4, r7 = f3.result(), f4.result(), f7.result()
+    except BaseException:
+        ex.shutdown(wait=True, cancel_futures=True)
+        raise
+    finally:
+        os.remove(bcfg)
+        os.remove(scfg)
+    stats["sim"] = {"traces": len(r3["traces"]), "num": nsim, "wall_s": r3["wall_s"]}
+    stats["bfs"] = {"traces": len(r4["traces"]), "stride": stride, "wall_s": r4["wall_s"]}
+    stats["shape"] = {"traces": len(r7["traces"]), "stride": sstride, "wall_s": r7["wall_s"]}
+
+    def finish():
+        """joins Mode A: every exhaustive run must have passed"""
+        try:
+            for name, (cfg, fut) in mode_a.items():
+                r = fut.result()
+                stats[name] = {k: r[k] for k in ("generated", "distinct", "depth", "wall_s")} | {"cfg": cfg}
+        finally:
+            ex.shutdown(wait=True, cancel_futures=True)
     # (data set, query) pairs, grouped by data set
     sets, order = {}, []
 
@@ -89,21 +123,27 @@ def gen_cases(tier, seed):
     rnd = random.Random(seed)
     for h in bfs:
         add(h, "bfs")
+    for h in r7["traces"]:
+        add(h, "shape")
     out = []
     for key in order:
         s = sets[key]
         cs = list(s["cases"].values())
         out.append({"data": s["data"], "cases": cs, "src": s["src"]})
-    if quick:       # ~150 pairs
-        total = sum(len(s["cases"]) for s in out)
-        while total > 170 and len(out) > 3:
-            s = max((x for x in out if x["src"] == "sim"), key=lambda x: len(x["cases"]), default=None)
-            if s is None or len(s["cases"]) <= 4:
-                break
-            s["cases"] = s["cases"][:-1]
-            total -= 1
+    # quick ~360 pairs, thorough ~1300; the enumerated families (bfs, shape) are kept whole, simulated cases are trimmed
+    cap = 360 if quick else 1300
+    total = sum(len(s["cases"]) for s in out)
+    while total > cap and len(out) > 3:
+        s = max((x for x in out if x["src"] == "sim"), key=lambda x: len(x["cases"]), default=None)
+        if s is None or len(s["cases"]) <= 4:
+            break
+        s["cases"] = s["cases"][:-1]
+        total -= 1
     stats["data_sets"] = len(out)
     stats["pairs"] = sum(len(s["cases"]) for s in out)
+    if defer:
+        return out, stats, finish
+    finish()
     return out, stats
 
 
@@ -197,6 +237,51 @@ class Conc:
 
     def nseries(self):
         return len({r["s"] for r in self.rows})
+
+    def mem_last_expectation(self, exp, q):
+        """F-C09-3 (open finding of C09, engine/iterators_helper.go set...ColumnMeta): while a part of the split copy is
+        still in the memtable, the memtable's LAST value of a column is paired with the time of the memtable record's
+        last row, so an eligible query (no interval, no field condition) with last() and calls on >= 2 fields may return
+        a memtable value of the column that is older than the true last point.  Returns the expected answer with these
+        alternatives added to the last() cells (everything else exact), or None if the predicate does not hold."""
+        if q["kind"] != "agg" or q["w"] != NONE or q["fldc"]["k"] != "none":
+            return None
+        calls = q["calls"]
+        if not any(c["fn"] == "last" for c in calls) or len({c["f"] for c in calls}) < 2:
+            return None
+        if not hasattr(self, "_parts"):
+            self._parts = self.split()
+        p2 = self._parts[1]
+        tab = [{"t1": "a", "t2": "x"}, {"t1": "b", "t2": "x"}, {"t1": "c", "t2": "y"}, {"t1": "a", "t2": "y"}]
+        tc = q["tagc"]
+
+        def tag_ok(sid):
+            tags = tab[sid - 1]
+            if tc["k"] == "eq":
+                return tags[tc["key"]] == tc["val"]
+            if tc["k"] == "ne":
+                return tags[tc["key"]] != tc["val"]
+            if tc["k"] == "re":
+                return tags[tc["key"]] in tc["vals"]
+            return True
+        out = []
+        for s_ in exp:
+            group = dict((k, v) for k, v in s_["tags"])
+            rows = []
+            for r in s_["rows"]:
+                cells = []
+                for ci, c in enumerate(calls):
+                    cell = r["c"][ci]
+                    if c["fn"] == "last" and cell[0] == "v":
+                        extra = {x["v"][c["f"]] for x in self.rows
+                                 if (x["s"], x["t"], c["f"]) in p2 and tag_ok(x["s"])
+                                 and all(tab[x["s"] - 1][k] == v for k, v in group.items())
+                                 and (q["tlo"] == NONE or x["t"] >= q["tlo"]) and (q["thi"] == NONE or x["t"] < q["thi"])}
+                        cell = ["v"] + sorted(set(cell[1:]) | extra)
+                    cells.append(cell)
+                rows.append({"t": r["t"], "c": cells})
+            out.append(dict(s_, rows=rows))
+        return out
 
     # ---- query text
     def render(self, q, mst, desc, rnd):
@@ -379,6 +464,56 @@ class Judge:
             return f"unexpected row {vals[pos]} after {pos} rows"
         return ""
 
+    def desc_limit_loose_ok(self, exp_series, series, mst):
+        """F-C08-11: with /debug/ctrl chunk_reader_parallel limit=1 a descending plain selection with LIMIT (no OFFSET, no
+        field condition) returns the right NUMBER of rows, each of them a genuine row of the selection, in descending
+        order and none twice - but not the newest ones."""
+        q, c = self.q, self.c
+        if q["kind"] != "raw" or q["lim"] == NONE or q["off"] != NONE or q["fldc"]["k"] != "none" or q["dims"]:
+            return False
+        if len(exp_series) != 1 or len(series) != 1 or series[0]["name"] != mst or series[0].get("tags"):
+            return False
+        cols = exp_series[0]["cols"]
+        if series[0]["columns"] != ["time"] + cols:
+            return False
+        vals = series[0]["values"]
+        if len(vals) != sum(g["k"] for g in exp_series[0]["rows"]):
+            return False
+        tab = [{"t1": "a", "t2": "x"}, {"t1": "b", "t2": "x"}, {"t1": "c", "t2": "y"}, {"t1": "a", "t2": "y"}]
+        tc = q["tagc"]
+
+        def tag_ok(tags):
+            if tc["k"] == "eq":
+                return tags[tc["key"]] == tc["val"]
+            if tc["k"] == "ne":
+                return tags[tc["key"]] != tc["val"]
+            if tc["k"] == "re":
+                return tags[tc["key"]] in tc["vals"]
+            return True
+        fields = [x for x in cols if x not in ("t1", "t2")]
+        cands = []
+        for r in c.rows:
+            tags = tab[r["s"] - 1]
+            if not tag_ok(tags) or (q["tlo"] != NONE and r["t"] < q["tlo"]) or (q["thi"] != NONE and r["t"] >= q["thi"]):
+                continue
+            if all(r["v"][f] == -99 for f in fields):
+                continue
+            cands.append((c.t(r["t"]), [["t", tags[x]] if x in tags else (["n"] if r["v"][x] == -99 else ["v", r["v"][x]]) for x in cols]))
+        prev = None
+        for ar in vals:
+            if prev is not None and ar[0] > prev:
+                return False
+            prev = ar[0]
+            hit = None
+            for i, (t, cells) in enumerate(cands):
+                if t == ar[0] and all(self.cell_ok(cells[k], ar[1 + k], cols[k]) for k in range(len(cols))):
+                    hit = i
+                    break
+            if hit is None:
+                return False
+            cands.pop(hit)
+        return True
+
     def show(self, cell, f):
         k = cell[0]
         if k == "w":
@@ -459,6 +594,7 @@ class Node:
                         raise
                     time.sleep(0.5 + attempt)
         self.lock = threading.Lock()
+        self.timeouts = 0
 
     def ddl(self, q):
         st, body = self.srv.query(q, method="POST")
@@ -536,7 +672,18 @@ class Node:
             p["chunk_size"] = str(chunked)
         if ics:
             p["inner_chunk_size"] = str(ics)
-        st, body = self.srv.http("GET", "/query", p, timeout=60)
+        # a query of these sizes answers within milliseconds; one that does not answer within 60 s, and again not within
+        # 30 s, is reported as such (a real behaviour: e.g. an ordered merge that never terminates)
+        for attempt, tmo in enumerate((60, 30)):
+            try:
+                st, body = self.srv.http("GET", "/query", p, timeout=tmo)
+                break
+            except (TimeoutError, OSError) as ex:
+                if not self.srv.alive():
+                    raise vlib.Infra(f"ts-server {self.name} died: {self.srv.tail_log(1500)}")
+                if attempt == 1:
+                    self.timeouts += 1
+                    return f"{NO_ANSWER} ({type(ex).__name__})", []
         if st != 200:
             return f"HTTP {st}: {body[:300]}", []
         return parse_response(body)
@@ -566,6 +713,17 @@ def predicate_finding(q, mst_kind, open_ids, desc=False, ics=None, small_segment
     return ""
 
 
+def has_alternatives(exp_series):
+    """does the expected answer leave a choice (several alternatives of a cell or of a row time)?"""
+    for s_ in exp_series:
+        for r in s_["rows"]:
+            if "k" in r:
+                continue
+            if len(r["t"]) > 1 or any(c[0] == "v" and len(c) > 2 for c in r["c"]):
+                return True
+    return False
+
+
 def load_known():
     return {f["id"]: f for f in vlib.load_known(PROP)}
 
@@ -581,9 +739,13 @@ class Run:
         self.nq = 0
         self.ref = {}            # (set, case, desc) -> (canonical answer, config label)
         self.tiecut = {}         # (set, case, desc) -> canonical answers seen, for LIMIT cuts through tied rows
+        self.offrule = {}        # (set, case, desc) -> runs whose (accepted) answer is not the tie rules' pick
+        self.skipped = 0         # queries not asked any more after MAX_TIMEOUTS unanswered ones on a server
         self.known = {}          # finding id -> [details]
         self.by_round = {}
         self.open = load_known()
+        # open findings of other properties whose mechanism this check runs into (attributed by their own model)
+        self.open_other = {f["id"] for f in vlib.load_known("C09")}
 
     def cases(self):
         for si, s in enumerate(self.sets):
@@ -596,6 +758,10 @@ class Run:
         mst = conc.m if mst_kind == "m" else conc.n
         rnd = random.Random(f"{self.seed}-{si}-{ci}-{desc}")
         text = conc.render(q, mst, desc, rnd)
+        if node.timeouts >= MAX_TIMEOUTS:
+            with self.lock:
+                self.skipped += 1
+            return
         err, series = node.run_query(text, chunked, ics)
         cfg = f"{label} {'desc' if desc else 'asc'} chunked={chunked} inner_chunk_size={ics}"
         with self.lock:
@@ -612,9 +778,29 @@ class Run:
         if d and not err:
             # attributed to an open finding only if the answer is one its deviation model predicts
             for k in e["exp"]["known"]:
-                if all(i in self.open for i in expand_ids(k["id"])) and j.answer_ok(k[dirn], series, mst) == "":
+                ids = expand_ids(k["id"])
+                # F-C09-1 (C09): needs a file whose chunks have several segments: small max-rows-per-segment, flushed data
+                if "F-C09-1" in ids and not ("max-rows-per-segment" in self.confs[node.name].get("data", {})
+                                             and "/memtable/" not in label + "/"):
+                    continue
+                # F-C08-4: the model that is exact wherever the preceding input row decides holds when the fill
+                # operator sees the whole answer of an ungrouped query as one chunk; elsewhere the loose one
+                one_chunk = not q["dims"] and ics is None
+                if "fillprev_prevrow" in k["devs"] and not one_chunk or "fillprev_wild" in k["devs"] and one_chunk:
+                    continue
+                # F-C08-5 without tags: the split path needs more windows than twice the inner chunk size
+                if "descfill_lossy_nodims" in k["devs"] and not (ics and max((len(s_["rows"]) for s_ in exp), default=0) > 2 * ics):
+                    continue
+                if all(i in self.open or i in self.open_other for i in ids) and j.answer_ok(k[dirn], series, mst) == "":
                     kid = k["id"]
                     break
+            if not kid and "F-C08-11" in self.open and desc and "/memtable/" not in label + "/" \
+                    and j.desc_limit_loose_ok(exp, series, mst):
+                kid = "F-C08-11"
+            if not kid and "F-C09-3" in self.open_other and mst_kind == "n" and "file+memtable" in label and not desc:
+                alt = conc.mem_last_expectation(exp, q)
+                if alt is not None and j.answer_ok(alt, series, mst) == "":
+                    kid = "F-C09-3"
             if not kid:
                 kid = predicate_finding(q, mst_kind, self.open, desc, ics,
                                         "max-rows-per-segment" in self.confs[node.name].get("data", {}))
@@ -629,17 +815,34 @@ class Run:
             with self.lock:
                 self.tiecut.setdefault((si, ci, desc), set()).add(cn)
         elif not err:
-            # the answer must be a function of contents and query text: the same under every configuration
+            # the answer must be a function of contents and query text: the same under every configuration.
+            # The language leaves the pick among tied points open; the implementation's tie rules (exp.tie, QuerySem
+            # TieCell / TieTimes) say which one it returns: narrow = this answer is one those rules predict
+            tie = e["exp"]["tie"][0][dirn] if e["exp"]["tie"] else exp
+            narrow = tie is exp or j.answer_ok(tie, series, mst) == ""
             cn = canon([dict(s, name="") for s in series])
             key = (si, ci, desc)
             with self.lock:
-                ref = self.ref.setdefault(key, (cn, cfg, text))
+                ref = self.ref.setdefault(key, (cn, cfg, text, narrow))
+                if not narrow:
+                    self.offrule[key] = self.offrule.get(key, 0) + 1
             if ref[0] != cn:
-                # both answers are acceptable to the specification, so they differ only in the pick among tied points
-                rec = {"set": si, "case": ci, "config": cfg, "server": node.name, "query": text,
-                       "known": "F-C08-9" if "F-C08-9" in self.open else "",
-                       "detail": f"answer depends on the configuration: {cn} here, {ref[0]} under [{ref[1]}]",
-                       "mst_kind": mst_kind, "desc": desc, "chunked": chunked, "ics": ics, "label": label}
+                alts = has_alternatives(tie)
+                if q["kind"] == "agg" and not alts and narrow and ref[3]:
+                    pass        # the rules predict ONE answer and both are it: equal up to the tolerance of mean()
+                else:
+                    # both answers are acceptable to the language, so they differ only in the pick among tied points.
+                    # F-C08-9 (store and executor disagree on a boolean first() and on descending queries) predicts a
+                    # configuration dependent pick only among the alternatives the tie rules leave; any other
+                    # dependence on the configuration is a violation
+                    pred = narrow and ref[3] and alts
+                    rec = {"set": si, "case": ci, "config": cfg, "server": node.name, "query": text,
+                           "known": "F-C08-9" if pred and "F-C08-9" in self.open else "",
+                           "detail": ("answer depends on the configuration" if pred else
+                                      "answer depends on the configuration and one of the answers is not what the tie "
+                                      "rules of the implementation (same time: greater value, same value: earliest "
+                                      "time) predict") + f": {cn} here, {ref[0]} under [{ref[1]}]",
+                           "mst_kind": mst_kind, "desc": desc, "chunked": chunked, "ics": ics, "label": label}
         if rec:
             with self.lock:
                 self.results.append(rec)
@@ -786,22 +989,29 @@ def report(run, sets, stats, tier, seed, t0):
             vlib.log(f"  [{r['config']}] {r['query']}\n    {r['detail'][:600]}")
         nviol += 1
     cov = {
-        "states": stats["chunk"]["distinct"] + stats["laws"]["distinct"],
-        "transitions": stats["chunk"]["generated"] + stats["laws"]["generated"],
+        "states": sum(stats[k]["distinct"] for k in ("chunk", "laws", "laws2", "laws_neg", "chunk5") if k in stats),
+        "transitions": sum(stats[k]["generated"] for k in ("chunk", "laws", "laws2", "laws_neg", "chunk5") if k in stats),
         "traces_validated_against_impl": stats["pairs"],
         "samples": [sets[0]["cases"][0]["q"], sets[-1]["cases"][-1]["q"]] if sets else [],
         "exhaustive": True,
         "evaluations": run.nq,
         "distinct_nontrivial": stats["pairs"],
-        "rule": "(data set, query) pairs evaluated by TLC (seeded simulation of the query grammar + BFS over two fixed data sets); "
-                "distinct = distinct (data set, query structure); evaluations = real queries run (pairs x configurations), each "
-                "compared with the specification's acceptable answers and with the other configurations' answers",
+        "rule": "(data set, query) pairs evaluated by TLC (seeded simulation of the query grammar incl. complementary-null data "
+                "sets and window aligned multi-field aggregates + a strided sample of the BFS family over two fixed data sets + a "
+                "seeded sample of the shape families: fill family over two complementary-null data sets, tie family over two "
+                "data sets with tied newest / oldest points and tied extreme values); distinct = distinct (data set, query "
+                "structure); evaluations = real queries run (pairs x configurations), each compared with the specification's "
+                "acceptable answers and with the other configurations' answers; a configuration dependent answer is accepted as "
+                "F-C08-9 only if all answers are picks the implementation's tie rules (QuerySem TieCell / TieTimes) predict",
         "tlc": stats,
         "queries_by_round": run.by_round,
         "server_configs": SERVER_CONFS,
         "divergent_pairs": nviol,
         "limit_cuts_through_ties": {"queries": len(run.tiecut), "with_configuration_dependent_choice": sum(1 for v in run.tiecut.values() if len(v) > 1)},
         "known_finding_runs": len(known),
+        "queries_not_asked_after_unanswered_ones": run.skipped,
+        "tie_rule": {"pairs_with_tied_points": sum(1 for s in sets for e in s["cases"] if e["exp"]["tie"]),
+                     "runs_with_a_pick_outside_the_rule": sum(run.offrule.values())},
         "nonempty_expected": sum(1 for s in sets for e in s["cases"] if e["exp"]["asc"]),
     }
     vlib.write_evidence(PROP, tier, seed, "model_checking", cov, time.time() - t0, nviol, [
@@ -809,7 +1019,9 @@ def report(run, sets, stats, tier, seed, t0):
         "single-node ts-server over HTTP; one database, shard group duration 1h, data sets with a 600s step span two shard groups",
         "new series are waited for once (show series) before judging, as the statement allows",
         "order of series, order of rows with equal time stamps and the pick among tied first/last/min/max points are left open "
-        "by the language: any is accepted, but it must be the same under every configuration",
+        "by the language: any is accepted, but it must be the same under every configuration; where it is not (F-C08-9) every "
+        "answer must be a pick the implementation's own tie rules predict (same time: greater value; same value: earliest time; "
+        "open only for a boolean first() and for descending queries)",
         "fill(previous) follows the iteration order (InfluxDB 1.x), so a descending fill(previous) is not the reversed ascending one",
         "compaction is not forced (no control endpoint); layouts: memtable, one file, file + memtable, two files",
     ])
@@ -819,10 +1031,14 @@ def report(run, sets, stats, tier, seed, t0):
 def run(tier, seed):
     t0 = time.time()
     vserver.build_server()
-    sets, stats = gen_cases(tier, seed)
-    vlib.log(f"[c08] {stats['data_sets']} data sets, {stats['pairs']} (data, query) pairs; TLC {time.time() - t0:.1f}s")
+    sets, stats, finish = gen_cases(tier, seed, defer=True)
+    vlib.log(f"[c08] {stats['data_sets']} data sets, {stats['pairs']} (data, query) pairs; generators {time.time() - t0:.1f}s")
     r = Run(tier, seed, sets, SERVER_CONFS)
-    r.run()
+    try:
+        r.run()
+    finally:
+        finish()        # Mode A must have passed (vlib.Infra otherwise), whatever the replay found
+    vlib.log(f"[c08] Mode A joined after {time.time() - t0:.1f}s")
     vlib.log(f"[c08] {r.nq} queries run; {len(r.results)} divergent runs; wall {time.time() - t0:.1f}s")
     nviol = report(r, sets, stats, tier, seed, t0)
     return 1 if nviol else 0
